@@ -8,7 +8,7 @@
    of one port at any position after the last token of that port, the other termination token last
    (ports are FIFO, so these are all the sequences a GatherStep can see when both inputs complete). *)
 From Coq Require Import List NArith ZArith Permutation.
-From SF Require Import Base.Str Base.Dec Tags.Model Gather.Model Gather.Proofs Gather.ProofsD.
+From SF Require Import Base.Str Base.Dec Tags.Model Gather.Model Gather.Proofs Gather.ProofsD Gather.ProofsN.
 Import ListNotations.
 Local Open Scope string_scope. Local Open Scope list_scope.
 
@@ -96,7 +96,40 @@ Theorem C01_gather_depth_d_product : forall (dims : list nat) (t : tag) (es : li
   gout (gd s) = [ListTok (render t) es] /\ gfinal s = Some Completed.
 Proof. exact gather_depth_d_grid. Qed.
 
+(* the empty list through the real pipeline: the scatter emits nothing but the size token (t, 0) and, its element
+   port being empty, terminates SKIPPED; the gather then receives TerminationToken(SKIPPED) on both ports, in any
+   legal interleaving with the size token: it still delivers the empty list with the original tag, and ends SKIPPED *)
+Theorem C01_empty : forall (t : string) l1 l2 p1 p2,
+  Permutation (l1 ++ l2) [OnSize t 0] -> p1 <> p2 -> (forall a, In a l2 -> port_of a <> p1) ->
+  scatter (ListTok t []) = Some ([], (t, 0%N)) /\ scatter_run_status [ListTok t []] Completed = Some Skipped /\
+  let s := gather_run 1 (l1 ++ OnTerm p1 Skipped :: l2 ++ [OnTerm p2 Skipped]) in
+  gout (gd s) = [ListTok t []] /\ gfinal s = Some Skipped.
+Proof. exact empty_pipeline. Qed.
+
+(* nesting depth d, by induction on d: a tree of uniform depth d below tag t (its leaves = the element tokens after
+   d scatters and the element-wise step), gathered by d chained depth-1 gathers ([chain]: the leaves arrive in any
+   order; every level is one GatherStep run on ANY legal complete arrival sequence of that level's size tokens and
+   of whatever the level below emitted, in whatever order): the result is exactly the nested list token [expect] *)
+Theorem C01_nested_d : forall d (t : tag) (tr : tree) outs,
+  t <> [] -> depth_is d tr -> chain d [(t, tr)] outs -> outs = [expect t tr].
+Proof. exact nested_d. Qed.
+(* ... for whole families of subtrees at one level (what a gather inside an outer scatter sees) *)
+Theorem C01_nested_d_family : forall d (F : fam) outs,
+  fam_ok d F -> chain d F outs -> Permutation outs (fexpect F).
+Proof. exact chain_correct. Qed.
+(* ... and the leaves of one level are what ScatterStep produces *)
+Theorem C01_scatter_is_expect : forall (t : tag) i xs,
+  t <> [] -> scatter_from (N.of_nat i) (render t) xs = expect_from t i (map Leaf xs).
+Proof. exact scatter_is_expect. Qed.
+
 (* ---- non-vacuity / headline instances ---- *)
+Example C01_nested_d_hyps : exists outs, chain 2 [([0%N], ex_tree)] outs /\ depth_is 2 ex_tree.
+Proof. exact ex_chain. Qed.
+Example C01_expect_example :
+  expect [0%N] ex_tree = ListTok "0" [ListTok "0.0" [Tok "0.0.0" "a"; Tok "0.0.1" "b"]; ListTok "0.1" []].
+Proof. vm_compute. reflexivity. Qed.
+Example C01_empty_hyps : Permutation ([OnSize "0" 0] ++ []) [OnSize "0" 0] /\ SizeP <> ElemP.
+Proof. split; [apply Permutation_refl|discriminate]. Qed.
 Example C01_grid_example :
   map (fun s => render ([0%N] ++ s)) (grid [2; 3]) = ["0.0.0"; "0.0.1"; "0.0.2"; "0.1.0"; "0.1.1"; "0.1.2"].
 Proof. vm_compute. reflexivity. Qed.
@@ -149,4 +182,8 @@ Print Assumptions C01_outer_scatter_feeds_inner.
 Print Assumptions C01_numeric_order.
 Print Assumptions C01_sort_canonical.
 Print Assumptions C01_gather_depth_d.
+Print Assumptions C01_empty.
+Print Assumptions C01_nested_d.
+Print Assumptions C01_nested_d_family.
+Print Assumptions C01_scatter_is_expect.
 Print Assumptions C01_gather_depth_d_product.
